@@ -218,6 +218,8 @@ pub fn profile(p: &Params) -> Profile {
             pr.key_heavy = true;
         }
         "C19" => {
+            // partitions added / deleted / replaced too: "a restart restores the full catalogue and data" (after seed C19-E)
+            pr.w_parts = 3;
             pr.encryption = Some(true);
             pr.w_restart = 6;
             pr.w_restart_key = 5;
